@@ -85,6 +85,12 @@ func vary(p mon.Property, path string, specs []string) int {
 func main() {
 	if r := os.Getenv("VERIF_ROOT"); r != "" {
 		mon.Root = r
+	} else if wd, err := os.Getwd(); err == nil {
+		// the checks run from the verif directory (check.sh cds into it); a
+		// snapshot copy therefore reads and writes its own files
+		if _, err := os.Stat(wd + "/known_findings.jsonl"); err == nil {
+			mon.Root = wd
+		}
 	}
 	exe, err := os.Executable()
 	if err == nil {
